@@ -178,7 +178,9 @@ def content_case(draw):
         else:
             node = {"t": "f", "c": "\n" * draw(st.sampled_from([1, 2, 100, 32768, 32769]))}
         files["f%d.dat" % i] = node
-    needles = draw(st.lists(st.sampled_from(["needle", "héllo", "a b", "XyZ", "absent", "p", "q", "lines", "#!"]), min_size=1, max_size=3, unique=True))
+    # needles that span a line end, and the empty needle (which every readable text contains, an empty file too)
+    needles = draw(st.lists(st.sampled_from(["needle", "héllo", "a b", "XyZ", "absent", "p", "q", "lines", "#!",
+                                             "two\nlines", "o\nl", "\n", "e\n", "\n\n", "é\nü", ""]), min_size=1, max_size=3, unique=True))
     return {"kind": "content", "tree": files, "needles": needles}
 
 
